@@ -4,8 +4,15 @@ CHECK = {
     'level': 'exploration',
     'rule': ('closure generator: push (every priority) / pop / get / clear / swap applied in every reachable state of one, two '
              'and three heaps over small priority sets (quick: 1 heap <= 12 elements x 3 priorities, <= 10 x 4, <= 20 x 2, 10 distinct '
-             'priorities, <= 70 all-equal; 2 heaps <= 5 x 3, <= 8 x 2, 8 distinct; 3 heaps <= 4 x 2; thorough: one to three sizes '
-             'larger), plus seeded random interleavings with fill/drain/hover phases on pools of 4-1024 elements (every sixth history '
+             'priorities, <= 70 all-equal; 2 heaps <= 5 x 3, <= 7 x 2, 7 distinct; 3 heaps <= 3 x 2; thorough: one to three sizes '
+             'larger); heap objects of one scope are configured differently (forward / reversed order through different comparator '
+             'functions, different priv, different embedded node member) and swap - applied in every state incl. both-empty and '
+             'one-empty - must exchange contents AND configuration (the comparator wrapper checks function, priv and membership '
+             'against the heap object being operated on; the walker checks that nothing outside the configured node member was '
+             'written); large-heap cases (2 quick / 6 thorough: 140000 elements, 1..140000 priorities) grow one heap past 2^17 with '
+             'pops mixed in and drain it with pushes mixed in, size/get/pop checked against a counting model after every call and the '
+             'full walker run whenever the size is within 2 of a power of two 2^8..2^17 (the size is driven back and forth across '
+             'each), at the top and at the end; plus seeded random interleavings with fill/drain/hover phases on pools of 4-1024 elements (every sixth history '
              'fills 500-1024 elements first) and 1..pool priorities; popped elements get their node overwritten before re-use. '
              'After every call: size == reference count; get/pop return NULL iff the reference '
              'multiset is empty, otherwise the address of an element that was pushed and is still held whose priority equals the '
@@ -16,7 +23,7 @@ CHECK = {
              'list and non-trivial when >= 2 elements are held.'),
     'assumptions': ['the comparison function is a total preorder on priorities (sign only is specified; it returns +-1 or +-large values)',
                     'priorities of held elements are never modified; popped elements have their node overwritten with garbage before re-use',
-                    'clear is only called with a non-NULL callback; swap only between distinct heaps of equal offset and comparison',
+                    'clear is only called with a non-NULL callback; swap only between distinct heap objects; an element is in at most one heap at a time',
                     'gcc 12 ASan/UBSan runtimes; harness reference model (multiset of element addresses per heap)',
                     'dbg-asan keeps the library asserts live; rel-asan is the NDEBUG build as shipped'],
     'runs': [
@@ -27,7 +34,7 @@ CHECK = {
 
 LEVEL = {
     'text': ('Exploration: every reachable heap state of several small scopes (closure over push/pop/get/clear/swap; ties, all-distinct '
-             'and all-equal priorities; one to three heaps) plus thousands of seeded random push/pop interleavings on up to 1024 elements '
+             'and all-equal priorities; one to three heaps) plus thousands of seeded random push/pop interleavings on up to 1024 elements and grow/drain runs past 2^17 elements '
              'are executed on the real library under ASan+UBSan in the assert-enabled and the NDEBUG build; a reference multiset '
              '(returned element is held and maximal, pop removes exactly it, size, NULL iff empty) and a completeness / parent-link / '
              'heap-order walker over the public node links are evaluated after every call. Held means: on the executions observed.'),
